@@ -72,7 +72,7 @@ func (e *Evaluator) EvaluateExpression(expression b6.Expression, root b6.Feature
 		modified, err = change.Apply(world)
 		e.Lock.Unlock()
 		e.Lock.RLock()
-		return &AppliedChange{Change: change, Modified: modified}, nil
+		return &AppliedChange{Change: change, Modified: modified}, err
 	}
 	return v, err
 }
